@@ -169,6 +169,7 @@ def _raise_conditions(v: FuncView, a: str, b: str):
             par = v.parent.get(id(par))
         if not ok or not conds:
             continue
+        conds = [(v.inline(t), pol) for t, pol in conds]
         combos = set()
         tabular = True
         for an in (True, False):
@@ -189,6 +190,8 @@ def _raise_conditions(v: FuncView, a: str, b: str):
                 break
         if tabular:
             out.append((r, combos))
+        elif any(isinstance(x, ast.Name) and x.id in (a, b) for t, _ in conds for x in ast.walk(t)):
+            out.append((r, None))  # depends on a / b in a way that was not tabulated
     return out
 
 
@@ -204,6 +207,14 @@ def _eval_none_test(t, env):
         return all(vals) if isinstance(t.op, ast.And) else any(vals)
     if isinstance(t, ast.Compare) and len(t.ops) == 1 and isinstance(t.left, ast.Name) and t.left.id in env and isinstance(t.comparators[0], ast.Constant) and t.comparators[0].value is None and isinstance(t.ops[0], (ast.Is, ast.IsNot)):
         return env[t.left.id] if isinstance(t.ops[0], ast.Is) else (not env[t.left.id])
+    if isinstance(t, ast.Compare) and len(t.ops) == 1 and isinstance(t.ops[0], (ast.Eq, ast.NotEq, ast.Is, ast.IsNot)):
+        # `(a is None) == (b is None)` and the like: two None-tests compared with each other
+        l, r = _eval_none_test(t.left, env), _eval_none_test(t.comparators[0], env)
+        if l is None or r is None:
+            return None
+        return (l == r) if isinstance(t.ops[0], (ast.Eq, ast.Is)) else (l != r)
+    if isinstance(t, ast.Constant) and isinstance(t.value, bool):
+        return t.value
     return None
 
 
@@ -240,15 +251,20 @@ def _exclusion_status(ctx, v: FuncView, a: str, b: str, depth: int = 0):
         if nf == want:
             return ("ok", n, norm(n.test))
     # general form: a raise whose path condition (if / elif / else nesting of None tests) is "both given"
-    rc = _raise_conditions(v, a, b)
+    rc_all = _raise_conditions(v, a, b)
+    rc = [(r, c) for r, c in rc_all if c is not None]
+    undecided = [r for r, c in rc_all if c is None]
     for r, combos in rc:
-        if combos == {(False, False)}:
+        # raised when both are given - possibly by the same guard that rejects "neither given"
+        if (False, False) in combos and combos <= {(False, False), (True, True)}:
             return ("ok", r, "raise under " + " / ".join(sorted({norm(t) for t in [v.parent.get(id(r)).test] if hasattr(v.parent.get(id(r)), "test")})))
-    if cands:
+    if cands and not undecided:
         return ("wrong", cands[0][0], norm(cands[0][0].test))
     for r, combos in rc:
-        if combos and combos != {(True, True)} and (False, False) not in combos:
+        if combos and combos != {(True, True)} and (False, False) not in combos and not undecided:
             return ("wrong", r, norm(r))
+    if undecided:
+        return ("delegated-unknown", undecided[0], norm(undecided[0]))
     fw = _both_forwarded(ctx, v, a, b) if depth < 3 else []
     worst = None
     for n, callee, ca, cb in fw:
